@@ -102,10 +102,16 @@ impl Allocator {
     /// Kills an entity atomically (will be updated when the allocator is
     /// maintained).
     pub fn kill_atomic(&self, e: Entity) -> Result<(), WrongGeneration> {
+        #[cfg(specs_verif)]
+        verif::yield_point(verif::SITE_KILL_ENTRY);
         if !self.is_alive(e) {
+            #[cfg(specs_verif)]
+            verif::yield_point(verif::SITE_KILL_ERR);
             return Err(self.del_err(e));
         }
 
+        #[cfg(specs_verif)]
+        verif::yield_point(verif::SITE_KILL_ADD);
         self.killed.add_atomic(e.id());
 
         Ok(())
@@ -156,7 +162,11 @@ impl Allocator {
             atomic_increment(&self.max_id).expect("No entity left to allocate") as Index
         });
 
+        #[cfg(specs_verif)]
+        verif::yield_point(verif::SITE_ALLOC_RAISE);
         self.raised.add_atomic(id);
+        #[cfg(specs_verif)]
+        verif::yield_point(verif::SITE_ALLOC_GEN);
         let gen = self
             .generation(id)
             .map(|gen| if gen.is_alive() { gen } else { gen.raised() })
@@ -541,6 +551,16 @@ struct EntityCache {
 
 impl EntityCache {
     fn pop_atomic(&self) -> Option<Index> {
+        // Verification hook H1: yield after a successful decrement, before the slot read
+        // (a local closure shadows the free function so that the line below stays untouched).
+        #[cfg(specs_verif)]
+        let atomic_decrement = |i: &AtomicUsize| {
+            let r = atomic_decrement(i);
+            if r.is_some() {
+                verif::yield_point(verif::SITE_POP_SLOT);
+            }
+            r
+        };
         atomic_decrement(&self.len).map(|x| self.cache[x - 1])
     }
 
@@ -569,8 +589,17 @@ impl Extend<Index> for EntityCache {
 /// checked overflow, returning `None` instead.
 fn atomic_increment(i: &AtomicUsize) -> Option<usize> {
     use std::usize;
+    #[cfg(specs_verif)]
+    verif::yield_point(verif::SITE_INC_ENTRY);
+    #[cfg(specs_verif)]
+    let mut verif_retry = false;
     let mut prev = i.load(Ordering::Relaxed);
     while prev != usize::MAX {
+        #[cfg(specs_verif)]
+        {
+            verif::yield_point(if verif_retry { verif::SITE_INC_RETRY } else { verif::SITE_INC_CAS });
+            verif_retry = true;
+        }
         match i.compare_exchange_weak(prev, prev + 1, Ordering::Relaxed, Ordering::Relaxed) {
             Ok(x) => return Some(x),
             Err(next_prev) => prev = next_prev,
@@ -583,14 +612,78 @@ fn atomic_increment(i: &AtomicUsize) -> Option<usize> {
 /// Resembles a `fetch_sub(1, Ordering::Relaxed)` with
 /// checked underflow, returning `None` instead.
 fn atomic_decrement(i: &AtomicUsize) -> Option<usize> {
+    #[cfg(specs_verif)]
+    verif::yield_point(verif::SITE_DEC_ENTRY);
+    #[cfg(specs_verif)]
+    let mut verif_retry = false;
     let mut prev = i.load(Ordering::Relaxed);
     while prev != 0 {
+        #[cfg(specs_verif)]
+        {
+            verif::yield_point(if verif_retry { verif::SITE_DEC_RETRY } else { verif::SITE_DEC_CAS });
+            verif_retry = true;
+        }
         match i.compare_exchange_weak(prev, prev - 1, Ordering::Relaxed, Ordering::Relaxed) {
             Ok(x) => return Some(x),
             Err(next_prev) => prev = next_prev,
         }
     }
     None
+}
+
+/// Verification hook H1 (compiled only with `--cfg specs_verif`): yield points between the
+/// atomic steps of `allocate_atomic`, `kill_atomic`, `EntityCache::pop_atomic`,
+/// `atomic_increment` and `atomic_decrement`. A yield point is a no-op unless a scheduler
+/// callback has been installed with [`verif::set_scheduler`]; the callback may block the calling
+/// thread (that is how a test harness serialises threads along a chosen schedule).
+#[cfg(specs_verif)]
+pub mod verif {
+    use std::sync::atomic::{AtomicUsize, Ordering};
+
+    /// `atomic_decrement`: before the initial load of the free-list length.
+    pub const SITE_DEC_ENTRY: u32 = 1;
+    /// `atomic_decrement`: after the initial load, before the first CAS.
+    pub const SITE_DEC_CAS: u32 = 2;
+    /// `atomic_decrement`: after a failed CAS, before the retry.
+    pub const SITE_DEC_RETRY: u32 = 3;
+    /// `EntityCache::pop_atomic`: after a successful decrement, before the slot read.
+    pub const SITE_POP_SLOT: u32 = 4;
+    /// `atomic_increment`: before the initial load of `max_id`.
+    pub const SITE_INC_ENTRY: u32 = 5;
+    /// `atomic_increment`: after the initial load, before the first CAS.
+    pub const SITE_INC_CAS: u32 = 6;
+    /// `atomic_increment`: after a failed CAS, before the retry.
+    pub const SITE_INC_RETRY: u32 = 7;
+    /// `allocate_atomic`: index chosen, before `raised.add_atomic`.
+    pub const SITE_ALLOC_RAISE: u32 = 8;
+    /// `allocate_atomic`: after `raised.add_atomic`, before the generation read.
+    pub const SITE_ALLOC_GEN: u32 = 9;
+    /// `kill_atomic`: before `is_alive` (generation read + load of `raised`).
+    pub const SITE_KILL_ENTRY: u32 = 10;
+    /// `kill_atomic`: `is_alive` returned `true`, before `killed.add_atomic`.
+    pub const SITE_KILL_ADD: u32 = 11;
+    /// `kill_atomic`: `is_alive` returned `false`, before the error is built.
+    pub const SITE_KILL_ERR: u32 = 12;
+
+    // The installed callback as an address (0 = none): one relaxed load per yield point,
+    // no fence, so an uninstrumented run keeps the memory-ordering behaviour of the code.
+    static SCHEDULER: AtomicUsize = AtomicUsize::new(0);
+
+    /// Installs (`Some`) or removes (`None`) the process-wide scheduler callback.
+    pub fn set_scheduler(f: Option<fn(site: u32)>) {
+        SCHEDULER.store(f.map(|f| f as usize).unwrap_or(0), Ordering::SeqCst);
+    }
+
+    /// Calls the installed scheduler callback with `site`; does nothing if none is installed.
+    #[inline]
+    pub fn yield_point(site: u32) {
+        let p = SCHEDULER.load(Ordering::Relaxed);
+        if p != 0 {
+            // SAFETY: a non-zero value was produced from a `fn(u32)` in `set_scheduler`.
+            let f: fn(u32) = unsafe { std::mem::transmute::<usize, fn(u32)>(p) };
+            f(site);
+        }
+    }
 }
 
 #[cfg(test)]
